@@ -187,7 +187,7 @@ def loguniform(lo, hi):
 
 
 zmin_strategy = st.one_of(
-    loguniform(1e-3, 0.05),  # below the hard-coded pruning limit
+    loguniform(1e-3, 0.05),  # below the (former) hard-coded pruning limit
     loguniform(0.05, 1.6),
     loguniform(0.05, 1.6),
     loguniform(1.6, 5.0),  # beyond the turnover of the angular diameter distance
